@@ -243,7 +243,27 @@ func (c *checkCtx) runContracts(cov map[string]interface{}) int {
 	var funcs []map[string]interface{}
 	var unsupportedAll []string
 	trusted := map[string]bool{}
+	var orphans []string
 	for _, b := range ld.bindErrors {
+		// a contract whose function is gone (or changed its arity) is unbound: no call site uses it any more.  That is a
+		// failure of the properties that put this function under contract, and only a note for the others.
+		if rest := strings.TrimPrefix(b, "bind:"); rest != b {
+			if k := strings.Index(rest, ": "); k > 0 {
+				if d := strings.Index(rest[:k], "."); d > 0 {
+					pkgName, qual := rest[:d], rest[d+1:k]
+					mine := false
+					for _, sel := range conf.Functions {
+						if pc := ld.pcs[sel.Pkg]; pc != nil && pc.Name == pkgName && sel.Func == qual {
+							mine = true
+						}
+					}
+					if !mine {
+						orphans = append(orphans, b)
+						continue
+					}
+				}
+			}
+		}
 		p := filepath.Join(c.outDir, "bind-error.txt")
 		os.WriteFile(p, []byte("obligation: "+b+"\n"), 0o644)
 		c.violation(strings.SplitN(b, ":", 3)[0]+":"+firstField(b), p, false)
@@ -420,6 +440,9 @@ func (c *checkCtx) runContracts(cov map[string]interface{}) int {
 	cov["solver_time_s"] = solverTime
 	cov["functions_under_contract"] = funcs
 	cov["trusted_base"] = tb
+	if len(orphans) > 0 {
+		cov["unbound_contracts_outside_this_property"] = orphans
+	}
 	cov["samples"] = samples
 	cov["failed"] = failedNames
 	cov["known_findings_matched"] = knownMatched
